@@ -578,6 +578,9 @@ class Program:
         if isinstance(target, ast.Name):
             ty = self.etype(value, f, env)
             if ty:
+                cur = env.get(target.id)
+                if cur is not None and cur[0] == "Dict" and cur[2] is None and ty[0] == "Dict" and ty[2] is not None:
+                    env[target.id] = ty
                 env.setdefault(target.id, ty)
         elif isinstance(target, (ast.Tuple, ast.List)):
             ty = self.etype(value, f, env)
@@ -753,10 +756,16 @@ class Program:
         if isinstance(e, (ast.List, ast.ListComp)):
             if isinstance(e, ast.List) and e.elts:
                 return ("List", self.etype(e.elts[0], f, env))
+            if isinstance(e, ast.ListComp):
+                return ("List", self.etype(e.elt, f, env))
             return ("List", None)
         if isinstance(e, ast.Dict):
             v = self.etype(e.values[0], f, env) if e.values else None
             return ("Dict", None, v)
+        if isinstance(e, ast.DictComp):
+            return ("Dict", None, self.etype(e.value, f, env))
+        if isinstance(e, ast.SetComp):
+            return ("List", self.etype(e.elt, f, env))
         if isinstance(e, ast.Tuple):
             return ("Tuple", [self.etype(x, f, env) for x in e.elts])
         if isinstance(e, ast.Constant):
